@@ -22,7 +22,7 @@ CHECKS = {
                      "are monitored after every scheduler step, and bounded liveness is checked at quiescence; file store "
                      "(one instance) and Redis store (1-2 instances), both transports; a second slice runs executions that "
                      "last about as long as or longer than execution_ttl, so that the stored record expires under them."
-                     " Further slices: parents that launch child executions in every form (children ending by their own deadline, failure or the parent's time-out), start events published by a client straight to the event queue (with and without a message id), machines with a loggingConfiguration.",
+                     " Further slices: parents that launch child executions in every form (children ending by their own deadline, failure or the parent's time-out), start events published by a client straight to the event queue (with and without a message id), machines with a loggingConfiguration, wall-clock jumps (also with fan-outs nested three deep whose branches all reach the deadline at one instant), a StartSyncExecution that outlasts the front end's waiting limit.",
                 ref="5/C02, 9.2", note=NOTE_BASE + ". No crashes injected (C04 owns them); failing cases are minimised "
                                                   "(checks/minimise.py) and replayed in a fresh process.",
                 technique="deterministic simulation: seeded schedule exploration with run-time monitors"),
@@ -43,7 +43,7 @@ CHECKS.update({
                      "the reference model: positional results, request multiset) with barrier / exactly-once / "
                      "MaxConcurrency monitors on the stream of history updates; plus the complete set of completion-order "
                      "permutations for fan-out <= 4 x every MaxConcurrency (that slice is enumerated exhaustively)."
-                     " Further slices: the same fan-out state entered several times by a loop; an error caught inside an iteration whose fallback outlasts its siblings / its MaxConcurrency batch.",
+                     " Further slices: the same fan-out state entered several times by a loop; an error caught inside an iteration whose fallback outlasts its siblings / its MaxConcurrency batch; several instances of one batched Map side by side; Maps of 41-100 items around MaxConcurrency 40. Request instants are compared with the reference model (equal under zero-latency schedules, never earlier otherwise): the concurrency bound as the workers see it, at any nesting depth.",
                 ref="5/C05", note=NOTE_BASE + "; reference interpreter model/asl.py.",
                 technique="deterministic simulation: seeded schedule exploration + enumerated completion orders, "
                           "monitors and reference model"),
@@ -77,7 +77,7 @@ CHECKS.update({
                      "after the last restart. For crashes between two handlings no (function, payload) may be requested more "
                      "often than in the crash-free run, no reply delivered to the restarted engine may stay unacknowledged, "
                      "and a third sampled slice places crashes around task-token callbacks (an accepted callback completes "
-                     "its task). The corpus includes an execution started by a raw start event.",
+                     "its task). The corpus includes an execution started by a raw start event and parents waiting for .sync children. Fault 'prefetched-unhandled': messages the broker had pushed to the dying consumer within its prefetch window come back flagged redelivered although never handled (every second idle crash point repeated with it at quick tier, all at thorough; sampled in the multi-crash slice). A recorded in-memory situation only counts as the recorded finding if the run also ends like one (States.Timeout).",
                 ref="5/C04, 9.2", note=NOTE_BASE + "; the enumerated slice uses a single asyncio instance with the "
                                                   "file-backed store; workers keep replying while the engine is down.",
                 technique="deterministic simulation with crash/restart fault injection enumerated over every crash point "
@@ -97,7 +97,7 @@ CHECKS.update({
                      "latency or an injected engine stall), plus the complete enumeration of all 2879 UTC offsets for "
                      "Wait TimestampPath and Choice timestamp comparisons; Waits and time-outs inside Parallel/Map "
                      "(MaxConcurrency batches), a deadline oracle for the machine TimeoutSeconds, and a slice of coinciding "
-                     "Task/machine deadlines and of events a stalled engine receives only after the deadlines.",
+                     "Task/machine deadlines and of events a stalled engine receives only after the deadlines; timers of days (Wait, Task time-out, a cancelled multi-day Wait in a Parallel) and a machine TimeoutSeconds above execution_ttl.",
                 ref="5/C08, 9.2", note=NOTE_BASE + "; exact ties between a reply and a deadline are excluded.",
                 technique="deterministic simulation: discrete-event virtual time, stall faults, enumerated offset slice"),
 })
@@ -107,7 +107,7 @@ CHECKS.update({
                 text="Seeded API call sequences (valid and invalid arguments, wrong JSON types, non-object bodies) through "
                      "the real Quart and Flask front ends of an engine running in the simulator, compared response by "
                      "response with a dict reference model; store snapshots around every rejected call; no 5xx accepted; "
-                     "failing sequences minimised by ddmin and replayable.",
+                     "failing sequences minimised by ddmin and replayable. Motif: run, redefine (also fan-out definitions), run again. A further slice runs machines that do real work (retries, catches, fan-outs) and describes them afterwards: the stored definition is what was created.",
                 ref="5/C10", note=NOTE_BASE + "; reference model model/api.py; file-backed store, one instance.",
                 technique="deterministic simulation: seeded operation histories against a reference model (differential), "
                           "ddmin minimisation"),
@@ -119,7 +119,7 @@ CHECKS.update({
                      "above) delivered to every enforcement point - API inputs, callback output, Pass/Task/Map/Parallel "
                      "state output, task reply - in several text shapes (string, whitespace-padded, compact, nested) at the API "
                      "boundaries, plus definition size, name length/characters and the history limit (reached by a loop and "
-                     "by retries alone). Weak "
+                     "by retries alone); an input accepted at the limit must run. Weak "
                      "fit for the technique (the comparison has no schedule in it); the simulator is what makes the "
                      "enforcement points reachable at all.",
                 ref="5/C16", note=NOTE_BASE + "; ASCII payloads only.",
@@ -139,9 +139,11 @@ CHECKS.update({
                      "awkward state names) and arbitrary JSON values: each goes to the bundled validator "
                      "(must return a list) and is started beside a healthy execution together with garbage messages on "
                      "the event queue, under a seeded schedule; accepted-implies-runs, poison-isolation and liveness "
-                     "oracles.",
-                ref="5/C18", note=NOTE_BASE + "; definitions rejected by the validator are only required not to hurt "
-                                             "others (their own zombie executions are a recorded finding).",
+                     "oracles. A validator-only sweep puts every JSON type into every field of a machine that uses every "
+                     "state type, Retry and Catch; every corpus machine also runs unmutated. A rejected definition left "
+                     "RUNNING for ever is a finding classified by where the exception got out (the reply-callback and "
+                     "dispatcher-drop classes are recorded, anything else is reported).",
+                ref="5/C18, 9.3", note=NOTE_BASE + ".",
                 technique="deterministic simulation: seeded mutation/poison injection beside a healthy workload"),
 })
 
@@ -150,8 +152,9 @@ CHECKS.update({
                 text="Seeded search over parent/child machine pairs (all integration forms, child outcomes, placements, "
                      "workflow types, invalid combinations) and task-token callback streams interleaved by the simulated "
                      "scheduler; result-shape, completion-instant, exactly-once-completion, InvalidToken and cancellation-"
-                     "propagation oracles.",
-                ref="5/C15", note=NOTE_BASE + "; single engine instance.",
+                     "propagation oracles; a child that runs into its own time-out; callbacks through the API of a second instance "
+                     "(Redis store), also with dashed instance ids.",
+                ref="5/C15", note=NOTE_BASE + ".",
                 technique="deterministic simulation: seeded scenario/schedule exploration with virtual-time oracles"),
 })
 
@@ -159,7 +162,7 @@ CHECKS.update({
     "C19": dict(level="exploration",
                 text="Seeded multi-instance runs (1-3 engines, both transports, classic/quorum queues) with an affinity "
                      "monitor on every publish and delivery of the simulated broker's operation log (every child-launch form: "
-                     "synchronous children stay on the launching instance), poison messages with a rule against acknowledgements "
+                     "synchronous children stay on the launching instance, API start events go to the shared queue), poison messages with a rule against acknowledgements "
                      "that cover other deliveries, an exclusive-consumer "
                      "probe (twin instance), and the address/message/acknowledge mapping of the real Producer/Consumer/"
                      "Message classes of both messaging modules against an independent reading of the address grammar.",
@@ -192,8 +195,11 @@ CHECKS.update({
                      "engine thread); a client polls DescribeExecution through a random instance around every status change; "
                      "a slice of rarely reached ends (output over the quota at a terminal state, execution time-out, ...); at "
                      "the end the REST handlers of every instance must agree with the store and each "
-                     "other. Configurations: file/Redis x STANDARD/EXPRESS x 1-2 instances x both front ends.",
-                ref="5/C11", note=NOTE_BASE + "; fault-free runs; Redis/pottery are in-process fakes; file-backed runs use "
+                     "other. Configurations: file/Redis x STANDARD/EXPRESS x 1-2 instances x both front ends. A crash slice (Redis store, "
+                     "one crash at sampled points incl. right after the first publishes, with and without the "
+                     "'prefetched-unhandled' broker fault) judges the final state: every status change announced at least "
+                     "once, record / last notification / history tell the same end, nothing stored for EXPRESS.",
+                ref="5/C11, 9.2", note=NOTE_BASE + "; fault-free runs except the crash slice; Redis/pottery are in-process fakes; file-backed runs use "
                                              "one instance because a file store is not shared.",
                 technique="deterministic simulation: seeded schedules with an invariant monitor at every step and at "
                           "simulated pre-emption points"),
